@@ -143,6 +143,16 @@ fn gen_kind(s: &mut Incent, rng: &mut Rng, ctx: &mut Ctx, o: &crate::scen::incen
         0 => {
             let actor = pick_actor(s, rng, 92);
             let who = s.actors[actor];
+            // sometimes a third party opens a dust position for the frontend helper contract itself,
+            // with a duration some user already uses (the helper then owns a position of its own that a
+            // mis-addressed expansion could land in)
+            if s.helper.is_some() && rng.chance(1, 14) {
+                let used: Vec<u64> = o.open.iter().take(na).flat_map(|v| v.iter().map(|p| p.1)).collect();
+                let dur = if used.is_empty() { gen_dur(s, rng) } else { *rng.pick(&used) };
+                let amount = rng.range128(1, 3);
+                ctx.probe("gen_position_opened_for_helper_contract");
+                return mk(actor, Op::Open { amount, dur, receiver: Some(1000), provided: amount, extra: 0 }, adv_s, Fault::None);
+            }
             let receiver = if rng.chance(1, 5) { Some(rng.idx(na)) } else { None };
             let recv = receiver.unwrap_or(actor);
             let recv_s = s.actors[recv];
